@@ -41,6 +41,7 @@ def handlers : List (String × (Case → String)) := [
   ("cancel", Drivers.Cancel.run),
   ("overlap", Drivers.Overlap.run),
   ("overlap2", Drivers.Overlap.run2),
+  ("overlap3", Drivers.Overlap.run3),
   ("subjoverlap", Drivers.Overlap.runSubj),
   ("leak", Drivers.Cancel.runLeak),
   ("nilobs", Drivers.NilObs.run),
